@@ -176,9 +176,15 @@ def handler(payload):
     if payload.get("fast_poll", True):
         fast_poll()
     out = []
+    # every job of this process works in the SAME directory path (emptied in between): the files of consecutive calls
+    # have the same names and other contents, so anything a call remembers about a path is put to the test
+    import shutil
+    wd = os.path.join(os.getcwd(), "jobdir")
     for i, job in enumerate(payload["jobs"]):
-        with tempfile.TemporaryDirectory(prefix="job%d-" % i, dir=os.getcwd()) as wd:
-            out.append(run_job(job, wd))
+        shutil.rmtree(wd, ignore_errors=True)
+        os.mkdir(wd)
+        out.append(run_job(job, wd))
+    shutil.rmtree(wd, ignore_errors=True)
     return out
 
 
